@@ -24,12 +24,12 @@ class C02(Check):
         "pure-Python modules under test",
         "map entries are compared in the datum's iteration order (the only order the statement lets the writer use)",
     ]
-    required_labels = ["s:union", "s:ref", "s:float", "s:double", "s:fixed", "s:enum", "d:varint10", "d:coll>=64", "d:str>=64B", "d:nan"]
+    required_labels = ["s:union", "s:ref", "s:float", "s:double", "s:fixed", "s:enum", "d:varint10", "d:coll>=64", "d:str>=64B", "d:nan", "d:tuple", "d:-type-hint", "d:multibyte"]
     quick = (5000, 1)
     thorough = (12000, 16)
 
     def __init__(self):
-        self.feat = gen.Features()
+        self.feat = gen.Features(hints=0.1, dict_null=True)
 
     def selftest(self):
         B.selftest()
